@@ -58,7 +58,13 @@ func cmdParse(args []string) int {
 			}
 		}
 		js, _ := json.Marshal(skips)
-		fmt.Printf("{\"file\":%q,\"ok\":%v,\"skips\":%s}\n", f, perr == nil, js)
+		// entropy-coded data of each block as [first bit, end bit): where a modification is confined to a block payload
+		var spans [][2]int
+		for _, blk := range st.Blocks {
+			spans = append(spans, [2]int{blk.OffEntropy, blk.Payload + blk.LenBits})
+		}
+		sp, _ := json.Marshal(spans)
+		fmt.Printf("{\"file\":%q,\"ok\":%v,\"skips\":%s,\"spans\":%s}\n", f, perr == nil, js, sp)
 	}
 	return 0
 }
